@@ -481,6 +481,18 @@ class Registry:
         """Yield (kind, call-or-name node) for every specs.* decorator,
         innermost first (the order in which they are applied)."""
         out = []
+        # anything that is not literally `specs.x` / `specs.x(...)`: decide
+        # by abstract evaluation first, by pattern only if that gives up
+        for dec in fi.node.decorator_list:
+            target = dec.func if isinstance(dec, ast.Call) else dec
+            d = self.repo.resolve(fi.module, target)
+            if not (d and d.startswith(SPECS + '.') or d in (
+                    'builtins.staticmethod', 'builtins.classmethod',
+                    'builtins.property', 'abc.abstractmethod')):
+                alt = self._decorators_by_evaluation(fi)
+                if alt is not None:
+                    return alt
+                break
         for dec in reversed(fi.node.decorator_list):
             if isinstance(dec, ast.Name):
                 # a decorator object kept in a module-level name:
@@ -512,7 +524,173 @@ class Registry:
                 continue
             else:
                 out.append(('?', dec))
+        if any(k == '?' for k, _ in out):
+            alt = self._decorators_by_evaluation(fi)
+            if alt is not None:
+                return alt
         return out
+
+    BARE_DECORATORS = ('method', 'extension_method', 'no_kwargs')
+
+    def _decorators_by_evaluation(self, fi):
+        """The decorator stack of `fi` contains something that is not a
+        plain `specs.x(...)`: a helper decorator with arguments, a generic
+        `_stacked(*decorators)`, a decorator kept in a tuple ...  Evaluate the
+        decorator expressions abstractly (nothing of the repository runs)
+        with the `specs` primitives as uninterpreted calls and read off the
+        sequence of primitive applications, innermost first.  Each is
+        returned as a `specs.x(...)` call node whose arguments are the
+        original argument expressions with the helper's parameters replaced
+        by the constants they are bound to.  None if that cannot be done."""
+        from sa import absint
+        import copy
+        FUNC = absint.Sym('the-decorated-function')
+        applied = []
+        pending = {}
+        counter = [0]
+        mod = fi.module
+        holder = {}
+
+        def subst(node, env, nmod):
+            """node with names bound in env to constants / captured type
+            expressions replaced; None if a name stays open."""
+            bad = []
+
+            class S(ast.NodeTransformer):
+                def visit_Name(self, n):
+                    if n.id in env:
+                        v = env[n.id]
+                        if isinstance(v, (str, int, float, bool,
+                                          type(None))):
+                            return ast.copy_location(ast.Constant(v), n)
+                        if isinstance(v, absint.Obj) and \
+                                'type_node' in v.attrs:
+                            return v.attrs['type_node']
+                        bad.append(n.id)
+                    return n
+            out = S().visit(copy.deepcopy(node))
+            if bad or nmod is not mod:
+                return None
+            return ast.fix_missing_locations(out)
+
+        def value_node(v, orig, env, nmod):
+            if isinstance(v, (str, int, float, bool, type(None))):
+                return ast.Constant(v)
+            if isinstance(v, absint.Obj) and 'type_node' in v.attrs:
+                return v.attrs['type_node']
+            if orig is not None:
+                return subst(orig, env, nmod)
+            return None
+
+        def rebuild(site, args, kwargs):
+            """The call at `site` as a self-contained node: evaluated
+            constants and captured type expressions in place of whatever
+            the helper spelled (parameters, *args, **kwargs, 'a' + b)."""
+            node, env, nmod = site
+            plain = not any(isinstance(a, ast.Starred) for a in node.args) \
+                and len(node.args) == len(args)
+            new_args = []
+            for i, v in enumerate(args):
+                n2 = value_node(v, node.args[i] if plain else None, env,
+                                nmod)
+                if n2 is None:
+                    return None
+                new_args.append(n2)
+            kws = {k.arg: k.value for k in node.keywords if k.arg}
+            new_kw = []
+            for k, v in kwargs.items():
+                n2 = value_node(v, kws.get(k), env, nmod)
+                if n2 is None:
+                    return None
+                new_kw.append(ast.keyword(arg=k, value=n2))
+            func = subst(node.func, env, nmod)
+            if func is None:
+                return None
+            out = ast.Call(func=func, args=new_args, keywords=new_kw)
+            ast.copy_location(out, node)
+            return ast.fix_missing_locations(out)
+
+        def is_type_class(callee):
+            if callee.startswith('yaql.language.yaqltypes.') or \
+                    callee == 'builtins.type':
+                return True
+            tgt = self.repo.lookup(callee.replace(':', '.'))
+            return isinstance(tgt, model.ClassInfo) and any(
+                self.repo.is_subclass(tgt, b) for b in (
+                    YT + '.SmartType', YT + '.HiddenParameterType',
+                    YT + '.LazyParameterType'))
+
+        def oracle(callee, args, kwargs):
+            site = holder['it'].shared.get('call')
+            if callee.startswith((SPECS + '.', SPECS + ':')):
+                kind = callee[len(SPECS) + 1:]
+                if kind in self.BARE_DECORATORS:
+                    if len(args) == 1 and args[0] is FUNC:
+                        applied.append((kind, ast.Name(id=kind,
+                                                       ctx=ast.Load())))
+                        return (FUNC,)
+                    return None
+                if kind in ('parameter', 'inject', 'name', 'meta',
+                            'yaql_property'):
+                    call = rebuild(site, args, kwargs)
+                    if call is None:
+                        raise absint.Unsupported(
+                            'decorator arguments of %s' % model.norm(
+                                site[0]))
+                    counter[0] += 1
+                    key = 'deco#%d' % counter[0]
+                    pending[key] = (kind, call)
+                    return (absint.Sym(key),)
+                return None
+            if callee in pending:
+                if len(args) == 1 and args[0] is FUNC:
+                    applied.append(pending[callee])
+                    return (FUNC,)
+                raise absint.Unsupported('decorator applied to something '
+                                         'else')
+            if is_type_class(callee):
+                tn = rebuild(site, args, kwargs)
+                if tn is None:
+                    raise absint.Unsupported('type expression %s' %
+                                             model.norm(site[0]))
+                return (absint.Obj('type-expression', type_node=tn),)
+            return None
+        it = absint.Interp(self.repo, mod, oracle)
+        holder['it'] = it
+        try:
+            for dec in reversed(fi.node.decorator_list):
+                target = dec.func if isinstance(dec, ast.Call) else dec
+                d = self.repo.resolve(mod, target)
+                if d in ('builtins.staticmethod', 'builtins.classmethod',
+                         'builtins.property', 'abc.abstractmethod'):
+                    continue
+                v = it.ev(dec, {})
+                n0 = len(applied)
+                if isinstance(v, absint.Sym):
+                    r = oracle(v.name, [FUNC], {})
+                    if r is None:
+                        return None
+                elif isinstance(v, absint.Closure):
+                    r = it.apply(v.node, v.env, [FUNC], {})
+                    if r is not FUNC:
+                        return None
+                elif isinstance(v, model.FuncInfo):
+                    sub = it.spawn(v.module)
+                    r = sub.apply(v.node, {}, [FUNC], {})
+                    if r is not FUNC:
+                        return None
+                elif isinstance(v, tuple) and v and v[0] == 'global' and \
+                        v[1].startswith(SPECS + '.'):
+                    r = oracle(v[1], [FUNC], {})
+                    if r is None:
+                        return None
+                else:
+                    return None
+                if len(applied) == n0:
+                    return None
+        except (absint.Unsupported, absint._Raise):
+            return None
+        return applied
 
     def _composed_decorators(self, h):
         """For `def deco(func): a = specs.x(..); return a(specs.y(..)(func))`
@@ -552,10 +730,21 @@ class Registry:
     def declaration(self, fi):
         if fi.key in self.decl:
             return self.decl[fi.key]
+        try:
+            decl = self._declaration_from(fi, self._decorators(fi))
+        except AnalysisError:
+            alt = self._decorators_by_evaluation(fi)
+            if alt is None:
+                raise
+            decl = self._declaration_from(fi, alt)
+        self.decl[fi.key] = decl
+        return decl
+
+    def _declaration_from(self, fi, decorators):
         decl = {'name': None, 'is_function': True, 'is_method': False,
                 'no_kwargs': False, 'params': {}, 'property_of': None,
                 'unknown_decorators': [], 'meta': {}}
-        for kind, dec in self._decorators(fi):
+        for kind, dec in decorators:
             if kind in ('parameter', 'inject'):
                 args = list(dec.args)
                 kw = {k.arg: k.value for k in dec.keywords}
@@ -589,7 +778,6 @@ class Registry:
                 decl['property_of'] = dec.args[0] if dec.args else None
             else:
                 decl['unknown_decorators'].append(model.norm(dec))
-        self.decl[fi.key] = decl
         return decl
 
     def make_overload(self, fi, reg_name=None, function=None, method=None,
